@@ -321,3 +321,29 @@ def resolve_word(eng, st, val):
                     new.append((s2, w))
         alts = new
     return alts
+
+
+# ---------------------------------------------------------------- octet tuples as big-endian values
+
+def as_be(eng, st, desc):
+    """(value Lin, n octets) when descriptor `desc` is n octets that are by construction the big-endian encoding of a
+    value: a `to_be_bytes` result, or n individually computed octets each proven within 0..255 (then they ARE the
+    base-256 digits of sum(e_i * 256^(n-1-i)) and the rule using this compares that sum with the intended value)."""
+    if desc[0] == "be" and isinstance(desc[1], VInt):
+        return desc[1].lin, desc[2]
+    if desc[0] == "const":
+        v = 0
+        for b in desc[1]:
+            v = v * 256 + b
+        return Lin.const(v), len(desc[1])
+    if desc[0] == "elems":
+        v = Lin.const(0)
+        for e in desc[1]:
+            if not isinstance(e, VInt):
+                return None
+            lo, hi = eng.bounds(st, e.lin)
+            if lo is None or hi is None or lo < 0 or hi > 255:
+                return None
+            v = v.scale(256) + e.lin
+        return v, len(desc[1])
+    return None
